@@ -41,6 +41,8 @@ pub fn check_fields(d: &NaiveDate, z: i64) -> Result<(), String> {
     // the provided trait method, as the date-time wrapper inherits it
     ensure_eq!(d.and_time(chrono::NaiveTime::MIN).num_days_from_ce() as i64, f.ce, "NaiveDateTime::num_days_from_ce of day {z}");
     ensure_eq!(d.leap_year(), f.leap, "leap_year of day {z}");
+    // year 0 = 1 BCE: the era form of the year (a provided trait method)
+    ensure_eq!(d.year_ce(), (f.year >= 1, if f.year >= 1 { f.year as u32 } else { (1 - f.year) as u32 }), "year_ce of day {z}");
     Ok(())
 }
 
